@@ -1,5 +1,6 @@
 // c10: engine for property C10 (VM registries under concurrency).
 //   c10 walk <repo>            print the regenerated lock table (Coq) for <repo>/runtime/vm.go
+//   c10 walk <repo> <dir> <Type> <file.go> [ctor...]   the same for another struct (C09: std/channel Channel channel.go Construct)
 //   c10 seq                    stdin: sequential op histories (JSON lines) -> results (tie with the sequential spec)
 //   c10 stress                 stdin: stress configurations (JSON lines); each runs in a CHILD process
 //                              (`c10 child`), so `fatal error: concurrent map writes` and race-detector
@@ -23,7 +24,15 @@ func main() {
 			fmt.Fprintln(os.Stderr, "usage: c10 walk <repo>")
 			os.Exit(2)
 		}
-		out, err := walk(os.Args[2])
+		tg := target{dir: "runtime", typ: "VM", file: "vm.go", ctors: map[string]bool{}}
+		if len(os.Args) >= 6 {
+			// c10 walk <repo> <dir> <Type> <file.go> [constructor methods...]
+			tg = target{dir: os.Args[3], typ: os.Args[4], file: os.Args[5], ctors: map[string]bool{}}
+			for _, c := range os.Args[6:] {
+				tg.ctors[c] = true
+			}
+		}
+		out, err := walk(os.Args[2], tg)
 		if err != nil {
 			fmt.Fprintln(os.Stderr, err)
 			os.Exit(1)
